@@ -48,6 +48,13 @@ def run_one(pid: str, tier: str, seed: int, replay: str | None, repo_path: str |
         chk.explanation = getattr(mod, "EXPLANATION", "")
         chk.trusted = list(getattr(mod, "TRUSTED", []))
         chk.assumptions = list(getattr(mod, "ASSUMPTIONS", []))
+        if os.environ.get("VERIF_AUTOINLINE", "1") != "0":
+            import re as _re
+            srcs = [Path(mod.__file__), Path(mod.__file__).with_name("_engine.py")]
+            words = set()
+            for f_ in srcs:
+                words |= set(_re.findall(r"[A-Za-z_][A-Za-z0-9_]*", f_.read_text(encoding="utf-8")))
+            chk.extra["helpers_inlined_all"] = repo.auto_inline(words)
         mod.run(chk)
         if tier == "thorough":
             from .selftest import run_selftest
